@@ -131,7 +131,7 @@ func main() {
 		Assumptions: []string{"refir reference evaluator"},
 		Cases: func(t string) int {
 			if t == "thorough" {
-				return 300000
+				return 1200000
 			}
 			return 60000
 		},
